@@ -197,6 +197,39 @@ def chk_split(c):
     assert len(set(idx.tolist())) == len(idx) and np.all((0 <= idx) & (idx < n_glob)) and np.allclose(vals, 1.0)
 
 
+def chk_ring2(c):
+    """two patches that touch along TWO faces (an annulus made of two half annuli): automatic detection finds both interfaces and the glued
+    numbering identifies two local dofs iff their control points coincide"""
+    from pyiga import assemble, bspline, geometry
+    arc = geometry.circular_arc(np.pi)
+    A = geometry.outer_product(arc, geometry.line_segment(1.0, 2.0))
+    B = A.rotate_2d(np.pi)
+    kvs = (bspline.make_knots(c['p'], 0.0, 1.0, c['n'][0]), bspline.make_knots(c['p'], 0.0, 1.0, c['n'][1]))
+    patches = [(kvs, A), (kvs, B)] if not c.get('swap') else [(kvs, B), (kvs, A)]
+    ok, ifaces = assemble.detect_interfaces(patches)
+    assert ok and len(ifaces) == 2, 'two half annuli share two faces; detected interfaces: %r' % (ifaces,)
+    mp = assemble.Multipatch(patches, automatch=True)
+    pts = {}
+    N = int(np.prod([kv.numdofs for kv in kvs]))
+    for k, (kv_, geo) in enumerate(patches):
+        G = np.asarray(geo.grid_eval([kv.greville() for kv in kv_])).reshape(-1, 2)
+        gi = np.asarray(mp.patch_to_global_idx(k))
+        for i in range(N):
+            pts.setdefault(int(gi[i]), []).append((k, i, G[i]))
+    for g, members in pts.items():
+        assert all(np.allclose(m_[2], members[0][2], atol=1e-10) for m_ in members), 'global dof %d glues dofs at different points' % g
+    # conversely: coinciding Greville points of different patches share their global index
+    allpts = [(k, i, q) for members in pts.values() for (k, i, q) in members]
+    gidx = {(k, i): g for g, members in pts.items() for (k, i, _) in members}
+    for a_ in range(len(allpts)):
+        for b_ in range(a_ + 1, len(allpts)):
+            (k1, i1, q1), (k2, i2, q2) = allpts[a_], allpts[b_]
+            if k1 != k2 and np.allclose(q1, q2, atol=1e-10):
+                assert gidx[(k1, i1)] == gidx[(k2, i2)], 'dofs %r and %r sit at the same point %r but have different global indices' % ((k1, i1), (k2, i2), q1.tolist())
+    n_iface = 2 * kvs[1].numdofs
+    assert mp.numdofs == 2 * N - n_iface, 'glued annulus has %d dofs, expected %d' % (mp.numdofs, 2 * N - n_iface)
+
+
 def chk_automatch(c):
     from pyiga import assemble, geometry, bspline
     nx, ny = c['grid']
@@ -305,7 +338,7 @@ def chk_automatch_geo(c):
             owner[gid] = tuple(x.tolist())
 
 
-CHECKS = {'automatch_geo': chk_automatch_geo, 'order': chk_order, 'history': chk_history, 'split': chk_split, 'automatch': chk_automatch}
+CHECKS = {'ring2': chk_ring2, 'automatch_geo': chk_automatch_geo, 'order': chk_order, 'history': chk_history, 'split': chk_split, 'automatch': chk_automatch}
 
 
 def generate(tier, rng):
@@ -319,6 +352,10 @@ def generate(tier, rng):
                 yield 'automatch_geo', {'dim': 3, 'p': 1 + int(refl[0]), 'n': [2, 2, 3], 'reflect': list(refl), 'swap': swap, 'dir': d}
     for refl in _it.product((False, True), repeat=2):
         yield 'automatch_geo', {'dim': 2, 'p': 1, 'n': [3, 2], 'reflect': list(refl), 'swap': False, 'dir': 1}
+    for p in (1, 2, 3):
+        for n in ([2, 2], [3, 2], [1, 4]):
+            for swap in (False, True):
+                yield 'ring2', {'p': p, 'n': n, 'swap': swap}
     quick = tier == 'quick'
     for name in ('grid2x1', 'grid2x2', 'ring3', 'ring4', 'ring5') + (() if quick else ('ring6',)):
         dim, npatch, joins = _complex(name)
